@@ -107,20 +107,38 @@ struct Case {
     position: u8,
     /// The bad block lives in its own file.
     own_file: bool,
+    /// 0 as is; 1 the bad block also carries healthy, satisfied rules of other kinds; 2 it is
+    /// nested inside a healthy block; 3 it lives in a Markdown file (HTML comments).
+    variant: u8,
 }
 
 fn build(m: &Malformation, case: &Case) -> Vec<(String, String)> {
     let block = |attrs: &str, content: &[&str]| format!("# <block {attrs}>\n{}\n# </block>\npad = 0\n", content.join("\n"));
-    let bad = block(&m.attrs, m.content);
+    let mut bad_attrs = m.attrs.clone();
+    if case.variant == 1 {
+        for (name, rule) in [("line-count", " line-count=\">=0\""), ("line-pattern", " line-pattern=\".*\"")] {
+            if !bad_attrs.contains(name) {
+                bad_attrs.push_str(rule);
+            }
+        }
+    }
+    let mut bad = block(&bad_attrs, m.content);
+    if case.variant == 2 {
+        bad = format!("# <block name=\"outer\" line-count=\">=0\" keep-unique>\nfirst = 0\n{bad}# </block>\n");
+    }
+    let bad_file = if case.variant == 3 { "y.md" } else { "y.py" };
+    if case.variant == 3 {
+        bad = format!("# Title\n\n<!-- <block {bad_attrs}> -->\n{}\n\n<!-- </block> -->\n", m.content.join("\n"));
+    }
     if case.position == 3 {
-        return vec![("x.py".to_string(), bad)];
+        return vec![(if case.variant == 3 { "x.md" } else { "x.py" }.to_string(), bad)];
     }
     let ok_script = format!("{}/ok.lua", scripts().1);
     let healthy: Vec<String> = HEALTHY.iter().map(|(a, c)| block(&a.replace("{lua}", &ok_script), c)).collect();
     if case.own_file {
         // Healthy blocks in x.py and z.py, the bad one in y.py (walk order decides first/middle/last).
         let mut files = vec![("x.py".to_string(), format!("{}{}", healthy[0], healthy[1])), ("z.py".to_string(), healthy[2].clone())];
-        files.insert(case.position as usize, ("y.py".to_string(), bad));
+        files.insert(case.position as usize, (bad_file.to_string(), bad));
         files
     } else {
         let mut parts = healthy.clone();
@@ -132,7 +150,7 @@ fn build(m: &Malformation, case: &Case) -> Vec<(String, String)> {
 fn check_case(case: &Case, ms: &[Malformation], sink: &Sink) {
     let m = &ms[case.malformation];
     let files = build(m, case);
-    let input = json!({"malformation": case.malformation, "position": case.position, "own_file": case.own_file, "kind": m.kind, "attrs": m.attrs});
+    let input = json!({"malformation": case.malformation, "position": case.position, "own_file": case.own_file, "variant": case.variant, "kind": m.kind, "attrs": m.attrs});
     let diff = m.diff.then(|| files.iter().map(|(n, t)| cli::new_file_diff(n, t)).collect::<String>());
     let names: Vec<String> = files.iter().map(|f| f.0.clone()).collect();
     for order in permutations(names.len()) {
@@ -140,7 +158,7 @@ fn check_case(case: &Case, ms: &[Malformation], sink: &Sink) {
         sink.exec();
         let outcome = librun::run(&Input { files: files.clone(), diff: diff.clone(), map_order: Some(map_order.clone()), ..Default::default() });
         sink.outcome(format!("{}:{}", m.kind.split(':').next().unwrap_or(""), outcome.class().split(':').take(2).collect::<Vec<_>>().join(":")));
-        let describe = |extra: &str| format!("bad block `{}` with content {:?} at position {} ({}), map order {map_order:?}: {extra}", m.attrs, m.content, case.position, if case.own_file { "own file" } else { "same file" });
+        let describe = |extra: &str| format!("bad block `{}` with content {:?} at position {} ({}, {}), map order {map_order:?}: {extra}", m.attrs, m.content, case.position, if case.own_file { "own file" } else { "same file" }, ["as is", "with satisfied rules of other kinds", "nested in a healthy block", "in a Markdown file"][case.variant as usize]);
         match &outcome {
             Outcome::Error { message, .. } => {
                 if message.trim().is_empty() {
@@ -159,7 +177,7 @@ fn check_case(case: &Case, ms: &[Malformation], sink: &Sink) {
     }
     // Every schedule of the seams (order of validator bodies, delivery order of async results):
     // the failure must not depend on which validator finishes first.
-    if case.position == 1 {
+    if case.position == 1 && case.variant == 0 {
         let stats = crate::e2::explore(&Input { files: files.clone(), diff: diff.clone(), map_order: Some(names.clone()), ..Default::default() }, None, 3000, |outcome, trace| {
             sink.exec();
             if outcome.exit_status() == 0 || matches!(outcome, Outcome::Panic { .. }) {
@@ -182,7 +200,7 @@ fn cli_slice(cfg: &Cfg, ms: &[Malformation], sink: &Sink) -> u64 {
     let mut n = 0;
     for (mi, m) in ms.iter().enumerate() {
         for (position, own_file) in [(3u8, false), (1, false), (2, true)] {
-            let case = Case { malformation: mi, position, own_file };
+            let case = Case { malformation: mi, position, own_file, variant: 0 };
             let files = build(m, &case);
             repo.clear();
             for (name, text) in &files {
@@ -213,15 +231,25 @@ pub fn run(cfg: &Cfg, sink: &Arc<Sink>) -> Report {
         std::env::remove_var("BLOCKWATCH_AI_API_KEY");
         std::env::set_var("BLOCKWATCH_AI_API_URL", "http://127.0.0.1:9/v1");
     }
-    let mut report = Report::new("cases = every malformation of every rule kind (unknown sort direction / format, non-numeric keys under numeric sort at every position, uncompilable regex in each regex-carrying attribute, bad line-count expressions incl. empty, overflow, negative, garbage, wrong operators, affects references without colon on a modified block, unknown severity on a violating block, check-lua with empty / missing / directory / empty-file / invalid-UTF-8 / validate-less script and bad pattern, check-ai with empty condition, bad pattern, missing key) × position of the bad block {alone, first, middle, last} × {same file as the healthy blocks, own file} × every block-map order, the middle position additionally under every schedule of the validator seams (library), and {alone, middle, own file last} through the real CLI; oracle: the run ends with an explanatory error or, at least, a non-zero status — never exit 0, never a panic; non-trivial = every case");
+    let mut report = Report::new("cases = every malformation of every rule kind (unknown sort direction / format, non-numeric keys under numeric sort at every position, uncompilable regex in each regex-carrying attribute, bad line-count expressions incl. empty, overflow, negative, garbage, wrong operators, affects references without colon on a modified block, unknown severity on a violating block, check-lua with empty / missing / directory / empty-file / invalid-UTF-8 / validate-less script and bad pattern, check-ai with empty condition, bad pattern, missing key) × position of the bad block {alone, first, middle, last} × {same file as the healthy blocks, own file} × {as is; with satisfied rules of other kinds on the same block; nested inside a healthy block; in a Markdown file} × every block-map order, the middle position additionally under every schedule of the validator seams (library), and {alone, middle, own file last} through the real CLI; oracle: the run ends with an explanatory error or, at least, a non-zero status — never exit 0, never a panic; non-trivial = every case");
     report.assume("the property's qualifiers are honoured: regexes sit on blocks with content, unknown severities on blocks with a violation, colon-less references on modified blocks");
     let ms = Arc::new(malformations());
     let mut cases = Vec::new();
     for malformation in 0..ms.len() {
-        cases.push(Case { malformation, position: 3, own_file: false });
-        for position in 0..3u8 {
-            for own_file in [false, true] {
-                cases.push(Case { malformation, position, own_file });
+        for variant in 0..4u8 {
+            cases.push(Case { malformation, position: 3, own_file: false, variant });
+            for position in 0..3u8 {
+                for own_file in [false, true] {
+                    // A Markdown block cannot share a Python file.
+                    if variant == 3 && !own_file {
+                        continue;
+                    }
+                    // The variants go with the alone / middle positions only (quick and thorough).
+                    if variant != 0 && position != 1 {
+                        continue;
+                    }
+                    cases.push(Case { malformation, position, own_file, variant });
+                }
             }
         }
     }
@@ -250,6 +278,6 @@ pub fn replay(cfg: &Cfg, input: &Value, sink: &Arc<Sink>) {
         cli_slice(cfg, &ms, sink);
         return;
     }
-    let case = Case { malformation: input["malformation"].as_u64().unwrap_or(0) as usize, position: input["position"].as_u64().unwrap_or(3) as u8, own_file: input["own_file"].as_bool().unwrap_or(false) };
+    let case = Case { malformation: input["malformation"].as_u64().unwrap_or(0) as usize, position: input["position"].as_u64().unwrap_or(3) as u8, own_file: input["own_file"].as_bool().unwrap_or(false), variant: input["variant"].as_u64().unwrap_or(0) as u8 };
     check_case(&case, &ms, sink);
 }
